@@ -53,3 +53,88 @@ Proof.
   intros U r g s Hno. unfold re_sub. rewrite (finditer_nil_of_no_match U false s r Hno).
   cbn. apply slice_full.
 Qed.
+
+(* ---- a substitution step never lengthens the text ---- *)
+From EV Require Import Proofs.ExtractSpec.
+Local Open Scope nat_scope.
+Definition ms_ok (s : str) (ms : list (nat * nat * caps)) : Prop :=
+  forall i j c, In (i, j, c) ms ->
+    i <= j /\ j <= length s /\ (forall n a b, In (n, (a, b)) c -> i <= a /\ a <= b /\ b <= j).
+
+Lemma cap_get_in : forall n c a b, cap_get n c = Some (a, b) -> In (n, (a, b)) c.
+Proof.
+  intros n c; induction c as [|[k sp] c IH]; intros a b H; cbn in H; [discriminate|].
+  destruct (Nat.eqb n k) eqn:Hk.
+  - apply PeanoNat.Nat.eqb_eq in Hk. subst k. inversion H; subst. left; reflexivity.
+  - right; apply IH; exact H.
+Qed.
+
+Lemma slice_length_le {A} (s : list A) a b : length (slice s a b) <= b - a.
+Proof. unfold slice. rewrite firstn_length. lia. Qed.
+
+Lemma sub_piece_le : forall s g i j c,
+  (forall n a b, In (n, (a, b)) c -> i <= a /\ a <= b /\ b <= j) ->
+  length (sub_piece s g c) <= j - i.
+Proof.
+  intros s g i j c Hc. unfold sub_piece. destruct g as [n|]; cbn; [|lia].
+  destruct (cap_get n c) as [[a b]|] eqn:Hg; cbn; [|lia].
+  apply cap_get_in in Hg. destruct (Hc _ _ _ Hg) as (H1 & H2 & H3).
+  pose proof (slice_length_le s a b). lia.
+Qed.
+
+Lemma sub_build_le : forall s g ms pos,
+  ms_ok s ms -> chain scan_step ms ->
+  (match ms with (i, _, _) :: _ => pos <= i | [] => pos <= length s end) ->
+  length (sub_build s g pos ms) <= length s - pos.
+Proof.
+  intros s g ms; induction ms as [|[[i j] c] rest IH]; intros pos Hok Hch Hpos.
+  - cbn. pose proof (slice_length_le s pos (length s)). lia.
+  - cbn [sub_build]. rewrite !app_length.
+    destruct (Hok i j c (or_introl eq_refl)) as (Hij & Hjs & Hc).
+    pose proof (slice_length_le s pos i) as H1.
+    pose proof (sub_piece_le s g i j c Hc) as H2.
+    assert (H3 : length (sub_build s g j rest) <= length s - j).
+    { apply IH.
+      - intros i' j' c' Hin. apply (Hok i' j' c'). right; exact Hin.
+      - destruct rest as [|b rest']; [exact I|]. cbn in Hch. destruct Hch as [_ Hch]. exact Hch.
+      - destruct rest as [|[[i' j'] c'] rest']; [exact Hjs|].
+        cbn in Hch. destruct Hch as [[Hs _] _]. cbn in Hs. exact Hs. }
+    lia.
+Qed.
+
+Theorem re_sub_length_le : forall U r g s, length (re_sub U r g s) <= length s.
+Proof.
+  intros U r g s. unfold re_sub.
+  pose proof (sub_build_le s g (finditer U false s r) 0) as H.
+  assert (Hok : ms_ok s (finditer U false s r)).
+  { intros i j c Hin. destruct (finditer_sound U false s r i j c Hin) as (_ & H1 & H2 & H3). auto. }
+  specialize (H Hok (finditer_chain U false s r)).
+  assert (Hp : match finditer U false s r with (i, _, _) :: _ => 0 <= i | [] => 0 <= length s end).
+  { destruct (finditer U false s r) as [|[[i j] c] ?]; lia. }
+  specialize (H Hp). lia.
+Qed.
+
+Lemma lstrip_length_le : forall P s, length (lstrip P s) <= length s.
+Proof. intros P s; induction s as [|x xs IH]; cbn; [lia|]. destruct (P x); cbn; lia. Qed.
+
+Lemma strip_length_le : forall P s, length (strip P s) <= length s.
+Proof.
+  intros P s. unfold strip, rstrip. rewrite rev_length.
+  pose proof (lstrip_length_le P (rev (lstrip P s))). rewrite rev_length in H.
+  pose proof (lstrip_length_le P s). lia.
+Qed.
+
+Lemma sub_chain_length_le : forall U steps s, length (sub_chain U steps s) <= length s.
+Proof.
+  intros U steps; induction steps as [|[r g] rest IH]; intros s; [cbn; lia|].
+  change (sub_chain U ((r, g) :: rest) s) with (sub_chain U rest (re_sub U r g s)).
+  pose proof (IH (re_sub U r g s)). pose proof (re_sub_length_le U r g s). lia.
+Qed.
+
+(* strip_punct only removes: the normalised antecedent is never longer than the written one *)
+Theorem strip_punct_length_le : forall U steps s, length (strip_punct U steps s) <= length s.
+Proof.
+  intros U steps s. unfold strip_punct.
+  pose proof (strip_length_le (is_space U) (sub_chain U steps s)).
+  pose proof (sub_chain_length_le U steps s). lia.
+Qed.
